@@ -183,7 +183,7 @@ func vRenderURL(u map[string]interface{}, originOnly bool) string {
 		"none": "", "schemerel": "//"}[vStr(u, "scheme")]
 	host := vHostText[vStr(u, "host")]
 	port := map[string]string{"none": "", "443": ":443", "8443": ":8443"}[vStr(u, "port")]
-	path := map[string]string{"plain": "/cb", "empty": "", "dotdot": "/a/../cb", "encdotdot": "/a/%2e%2e/cb", "double": "//cb"}[vStr(u, "path")]
+	path := map[string]string{"plain": "/cb", "empty": "", "dotdot": "/a/../cb", "encdotdot": "/a/%2e%2e/cb", "mixdotdot": "/a/.%2E/cb", "double": "//cb"}[vStr(u, "path")]
 	query := map[string]string{"none": "", "query": "?x=1", "emptyq": "?"}[vStr(u, "query")]
 	if originOnly {
 		path, query = "", ""
